@@ -265,6 +265,7 @@ func (*code128Reader) DecodeRow(rowNumber int, row *gozxing.BitArray, hints map[
 	lastCharacterWasPrintable := true
 	upperMode := false
 	shiftUpperMode := false
+	lengthBeforeLastCode := 0
 
 	for !done {
 
@@ -285,6 +286,7 @@ func (*code128Reader) DecodeRow(rowNumber int, row *gozxing.BitArray, hints map[
 		// Remember whether the last code was printable or not (excluding CODE_STOP)
 		if code != code128CODE_STOP {
 			lastCharacterWasPrintable = true
+			lengthBeforeLastCode = len(result)
 		}
 
 		// Add to checksum computation (if not CODE_STOP of course)
@@ -510,6 +512,11 @@ func (*code128Reader) DecodeRow(rowNumber int, row *gozxing.BitArray, hints map[
 	// lastCode is the checksum then:
 	if checksumTotal%103 != lastCode {
 		return nil, gozxing.NewChecksumException("checksumTotal=%d, lastCode=%d", checksumTotal, lastCode)
+	}
+
+	// A check character that happens to be FNC1 was reported as a GS (with ASSUME_GS1): not data
+	if !lastCharacterWasPrintable && len(result) > lengthBeforeLastCode {
+		result = result[:lengthBeforeLastCode]
 	}
 
 	// Need to pull out the check digits from string
